@@ -5,7 +5,7 @@ s=$1; id=$2; tier=${3:-quick}; shift 3 2>/dev/null
 wt=/tmp/mut-$s
 git -C /repo worktree remove --force $wt 2>/dev/null
 git -C /repo worktree add -q --detach $wt HEAD || exit 2
-( cd $wt && git apply /verif/seeded/$s/patch.diff ) || { echo "patch does not apply"; git -C /repo worktree remove --force $wt; exit 2; }
+( cd $wt && { git apply /verif/seeded/$s/patch.diff 2>/dev/null || git apply -3 /verif/seeded/$s/patch.diff; } ) || { echo "patch does not apply"; git -C /repo worktree remove --force $wt; exit 2; }
 cd /verif && ./check $id $tier --repo $wt "$@"; rc=$?
 git -C /repo worktree remove --force $wt
 rm -rf /verif/.work/$(echo $id | tr A-Z a-z)-alt
